@@ -37,15 +37,19 @@ def tree_hash():
         _tree_hash = h.hexdigest()[:14]
     return _tree_hash
 
-_hdr_hash = None
-def headers_hash():
-    global _hdr_hash
-    if _hdr_hash is None:
-        parts = []
-        for p in sorted(glob.glob(os.path.join(SRC, '*.hpp'))):
-            parts.append(open(p, 'rb').read())
-        _hdr_hash = sha(*parts)
-    return _hdr_hash
+_dep_cache = {}
+def local_deps_hash(src):
+    """hash of the source file and of every /verif/src header it includes (transitively)"""
+    if src in _dep_cache: return _dep_cache[src]
+    seen = []; todo = [src]
+    while todo:
+        f = todo.pop()
+        if f in seen or not os.path.exists(f): continue
+        seen.append(f)
+        for m in re.finditer(r'^\s*#\s*include\s+"([^"]+)"', open(f, encoding='utf8', errors='replace').read(), re.M):
+            todo.append(os.path.join(SRC, m.group(1)))
+    _dep_cache[src] = sha(*[open(f, 'rb').read() for f in sorted(seen)])
+    return _dep_cache[src]
 
 # ---------------------------------------------------------------------------------------------------------
 # build description
@@ -87,7 +91,7 @@ def obj_path(o, flavour):
     if o['opt']: flags = [f for f in flags if not re.fullmatch(r'-O\d', f)] + [o['opt']]
     flags += o['defs']
     src = os.path.join(SRC, o['src'])
-    key = sha(open(src, 'rb').read(), headers_hash(), ' '.join(flags), fl['cxx'], tree_hash() if o['tree'] else 'engine')[:10]
+    key = sha(local_deps_hash(src), ' '.join(flags), fl['cxx'], tree_hash() if o['tree'] else 'engine')[:10]
     d = os.path.join(tree_dir() if o['tree'] else os.path.join(BUILD, 'engine'), flavour)
     tag = re.sub(r'[^A-Za-z0-9]+', '', ''.join(o['defs']))
     return os.path.join(d, '%s.%s.%s.o' % (os.path.splitext(o['src'])[0], tag, key)), flags
@@ -249,8 +253,12 @@ def replay_engine(exe, f, flavour='n'):
     p = subprocess.run([exe, 'replay', f['check'], f['case']], stdout=subprocess.PIPE, stderr=subprocess.PIPE, text=True, errors='replace', env=env)
     return p.returncode != 0, (p.stdout.strip().splitlines() or [''])[-1] if p.returncode in (0, 1) else 'died with exit %s: %s' % (p.returncode, summarise_crash(p.stderr))
 
+def out_root():
+    """evidence/ and replays/ live in /verif for the real tree, next to the build output for scratch trees (mutation audit)"""
+    return VERIF if os.path.realpath(REPO) == '/repo' else tree_dir()
+
 def write_replay(prop, f):
-    d = os.path.join(VERIF, 'replays', prop)
+    d = os.path.join(out_root(), 'replays', prop)
     os.makedirs(d, exist_ok=True)
     body = dict(f); body['property'] = prop; body['tree'] = tree_hash(); body['seed'] = SEED
     name = sha(json.dumps({k: body.get(k) for k in ('kind', 'binary', 'check', 'case', 'key')}, sort_keys=True))[:16] + '.json'
@@ -297,8 +305,8 @@ def finish(run, level='exploration', extra_cov=None):
     if run.known_hits: cov['known_findings_reproduced'] = sorted(set(run.known_hits))
     if extra_cov: cov.update(extra_cov)
     evd = dict(property_id=run.prop, tier=run.tier, seed=SEED, level=level, coverage=cov, assumptions=run.assumptions, wall_s=round(wall, 2), violations=violations)
-    os.makedirs(os.path.join(VERIF, 'evidence'), exist_ok=True)
-    json.dump(evd, open(os.path.join(VERIF, 'evidence', run.prop + '.json'), 'w'), indent=1, ensure_ascii=False)
+    os.makedirs(os.path.join(out_root(), 'evidence'), exist_ok=True)
+    json.dump(evd, open(os.path.join(out_root(), 'evidence', run.prop + '.json'), 'w'), indent=1, ensure_ascii=False)
     log('%s %s: %d evaluations, %d distinct non-trivial, %d violation(s), %.1fs' % (run.prop, run.tier, run.evaluations, run.nontrivial, violations, wall))
     if violations: return 1
     if harness_errors: return 2
